@@ -1,5 +1,5 @@
 """Property -> rules.  Each entry: run(prog, tier) -> (obligations, floors, meta)."""
-from .rules import bounds, arith, index, numctor, cmp
+from .rules import bounds, arith, index, numctor, cmp, jsonw
 
 COMMON_TRUST = [
     "rustc nightly HIR/MIR construction, trait resolution and const evaluation",
@@ -152,7 +152,34 @@ def c09(prog, tier):
     return obs, floors, meta
 
 
+def c05(prog, tier):
+    obs, floors, an = merge(jsonw.run(prog), numctor.run(prog))
+    meta = {
+        "level": "other",
+        "explanation": (
+            "Static decision of structural clauses of C05. (1) Exhaustive over all 256 byte values: the const-evaluated "
+            "ESCAPE table equals RFC 8259 (controls, quote, backslash escaped; everything else, including all bytes >= 0x80, "
+            "copied verbatim, which keeps the unsafe byte view valid UTF-8); HEX_DIGITS is 0-9a-f; the \\u00XX sequence "
+            "takes both nibbles of the same byte; the match covers every table value. (2) One writer: JsonFormat, "
+            "ToStringFormat and manifest_json_ex funnel into manifest_json_ex_buf; keys and string values go through the "
+            "escaper; only NumValue is Display-formatted, via <f64 as Display> from a finite-only NumValue (R-NUMCTOR) so "
+            "no exponent/NaN token; Val::Func reaches an error without writing; indentation state is restored on every "
+            "non-error path. (3) parseJson number visitors convert their own parameter without re-casting. NOT decided: "
+            "parseJson o manifest = id (serde_json trusted; value equality)."),
+        "rule": "R-JSON: const-evaluated statics vs RFC 8259 table; MIR aggregate/descriptor checks on escape_string_json_buf; "
+                "callee-identity and reachability checks on the writer; R-NUMCTOR for finite numbers",
+        "rules": ["R-JSON", "R-NUMCTOR"],
+        "analysed": an,
+        "decided": "escaping table and sequences; single writer; rejection of functions; number token form",
+        "not_decided": "round trip through an independent parser; key order (see C13/C16 R-HASHORD)",
+        "trusted_base": COMMON_TRUST + ["RFC 8259 section 7 transcription in rules/jsonw.py"],
+        "assumptions": ["<f64 as Display> never prints an exponent or a non-finite token for finite values (std contract)"],
+    }
+    return obs, floors, meta
+
+
 PROPS = {
+    "C05": {"run": c05, "thorough_cfgs": ["default", "experimental"]},
     "C09": {"run": c09, "thorough_cfgs": ["default", "experimental"]},
     "C04": {"run": c04},
     "C12": {"run": c12, "thorough_cfgs": ["default", "experimental"]},
